@@ -165,6 +165,17 @@ func (pg *ProgGen) seq() (mt.Expr, string) {
 			return mt.Filt{E: base, Name: "default", Args: []mt.Expr{mt.Arr{}}}, "int"
 		}
 	}
+	if (len(pg.loopInts) > 0 || len(pg.intVars) > 0) && r.P(1, 5) {
+		// a filtered sequence whose filter argument is a variable of an enclosing loop or an earlier set: the sequence is
+		// worked out anew every time the loop is reached
+		vars := append(append([]string{}, pg.loopInts...), pg.intVars...)
+		x := mt.V(vars[r.Intn(len(vars))])
+		base := mt.V(fmt.Sprintf("l%d", r.Intn(13)))
+		if r.Bool() {
+			return mt.Filt{E: base, Name: "slice", Args: []mt.Expr{mt.I(0), x}}, "int"
+		}
+		return mt.Filt{E: base, Name: "slice", Args: []mt.Expr{x}}, "int"
+	}
 	switch r.Intn(9) {
 	case 0, 1, 2:
 		return mt.V(fmt.Sprintf("l%d", r.Intn(13))), "int"
